@@ -142,3 +142,25 @@ Definition canon_defined (c : tables * table * out) : bool :=
   let '(t, tbl, _) := c in
   forallb (fun x => match x with Ok (Some _) => true | _ => false end)
           (canon_cells (env_of t) tbl O tbl).
+
+(* case (e): the constructed cards as text, for the harness to hand them to the
+   implementation: one line "key|material|geometry|options" per card whose
+   construction is defined *)
+Definition nl : string := String (ascii_of_N 10) EmptyString.
+
+Fixpoint canon_dump_cells (e : env (T:=float)) (tbl todo : table) : string :=
+  match todo with
+  | [] => EmptyString
+  | (key, c) :: r =>
+      (match resolve_like (List.length tbl) tbl c with
+       | Ok x => match canon_card FS e x with
+                 | Ok w => let '(m, g, o) := card_text w in
+                           dec_Z key ++ "|" ++ m ++ "|" ++ g ++ "|" ++ o ++ nl
+                 | Err _ => EmptyString
+                 end
+       | Err _ => EmptyString
+       end) ++ canon_dump_cells e tbl r
+  end.
+
+Definition canon_dump (c : tables * table * out) : string :=
+  let '(t, tbl, _) := c in canon_dump_cells (env_of t) tbl tbl.
